@@ -95,7 +95,7 @@ def plan(case):
         if t in stored:
             loads.add(t)
             return
-        if mod == "time_range" and ORDER[pol[t]] > ORDER["EXPLICIT"]:
+        if mod in ("time_range", "time_within") and ORDER[pol[t]] > ORDER["EXPLICIT"]:
             error = "DataNotAvailable"
             return
         if "*" in forbid or t in forbid:
@@ -229,10 +229,11 @@ def gen_case(seed, idx):
         if same:
             targets.append(rng.choice(same))
     save = sorted(rng.sample(types, rng.randint(0, 2))) if rng.random() < 0.5 else []
-    modifier = rng.choice(["none", "none", "none", "time_range", "selection", "keep_columns", "fuzzy_for", "allow_incomplete"])
+    # time_within: the same time restriction, spelled through a row that spans it
+    modifier = rng.choice(["none", "none", "none", "time_range", "time_within", "selection", "keep_columns", "fuzzy_for", "allow_incomplete"])
     forbid = rng.choice([[], [], [], ["*"], [rng.choice(types)]])
     if stratum == "multi_partial":
-        modifier = rng.choice(["none", "time_range", "time_range", "selection", "keep_columns", "fuzzy_for", "allow_incomplete"])
+        modifier = rng.choice(["none", "time_range", "time_within", "selection", "keep_columns", "fuzzy_for", "allow_incomplete"])
         forbid = rng.choice([[], [], ["mab"], ["mab"], ["top"], ["mb"]])
     # forbid_creation_of may be given as a tuple, a list or (one type) a plain string
     form = rng.choice(["tuple", "tuple", "list", "str"])
@@ -305,6 +306,8 @@ def run_case(case):
         kw = {}
         if case["modifier"] == "time_range":
             kw["time_range"] = (case["t0"], case["t1"])
+        elif case["modifier"] == "time_within":
+            kw["time_within"] = np.array([(case["t0"], case["t1"])], dtype=strax.time_fields)[0]
         elif case["modifier"] == "selection":
             kw["selection"] = "time >= 0"
         elif case["modifier"] == "keep_columns":
@@ -318,7 +321,8 @@ def run_case(case):
         if not two:
             try:
                 comp = ctx().get_components("0", targets=(tg,), save=tuple(case["save"]),
-                                            time_range=kw.get("time_range"), selection=kw.get("selection"),
+                                            time_range=kw.get("time_range") or ((case["t0"], case["t1"]) if "time_within" in kw else None),
+                                            selection=kw.get("selection"),
                                             keep_columns=kw.get("keep_columns"))
                 cexc = None
             except Exception as e:  # noqa: BLE001
@@ -431,7 +435,7 @@ def run_case(case):
                         add("saves", f"frontend {i} ({case['frontends'][i]}): saved {sorted(new)}, expected {sorted(ref['saves'][i])}",
                             missing_policy=sorted({pol[x] for x in miss}), extra_policy=sorted({pol[x] for x in extra}))
                 # rows
-                if not two and case["modifier"] in ("none", "time_range", "selection", "fuzzy_for", "allow_incomplete"):
+                if not two and case["modifier"] in ("none", "time_range", "time_within", "selection", "fuzzy_for", "allow_incomplete"):
                     if not oracle.rows_equal(got, out[tg]):
                         add("rows", f"result differs from the whole-run oracle: {got.tolist()} vs {out[tg].tolist()}")
                 # exactly-once delivery to every consumer that ran
